@@ -5,6 +5,8 @@ extern crate pest_derive;
 mod codegen;
 mod config;
 mod parser;
+#[cfg(feature = "verif-hooks")]
+mod verif_hooks;
 
 use clap::Parser;
 use log::{error, info, LevelFilter};
